@@ -332,8 +332,10 @@ def write_evidence(ctx, build, extra_cov, assumptions, violations_n):
         "wall_s": round(ctx.elapsed(), 1),
         "violations": violations_n,
     }
-    os.makedirs(os.path.join(VERIF, "evidence"), exist_ok=True)
-    p = os.path.join(VERIF, "evidence", "%s.json" % ctx.prop)
+    # evidence/ describes runs against /repo itself; runs against another tree (VERIF_REPO, seeded changes) go elsewhere
+    evdir = os.path.join(VERIF, "evidence") if os.path.realpath(REPO) == "/repo" else os.path.join(VERIF, ".run", "evidence_other")
+    os.makedirs(evdir, exist_ok=True)
+    p = os.path.join(evdir, "%s.json" % ctx.prop)
     tmp = p + ".tmp"
     with open(tmp, "w") as f:
         json.dump(ev, f, indent=1, default=str)
